@@ -72,7 +72,8 @@ TABLE = [
     (r"^alloc::alloc::realloc$", UNSUPPORTED, "resizes a block"),
     (r"^<alloc::boxed::Box<T, alloc::alloc::Global>>::new$", BOXNEW, "allocates a box for the value (type-derived layout)"),
     (r"^<alloc::boxed::Box<T, A>>::(from_raw|into_raw|from_raw_in|into_raw_with_allocator)$|^<alloc::boxed::Box<T, alloc::alloc::Global>>::(from_raw|into_raw)$", NEUTRAL, "box <-> raw pointer, contents travel with it"),
-    (r"^<alloc::boxed::Box<T, A>>::(leak|into_pin|into_inner|into_boxed_slice)$|^<alloc::boxed::Box<T, alloc::alloc::Global>>::(leak|pin)$", UNSUPPORTED, "box conversion not used by the crate"),
+    (r"^<alloc::boxed::Box<T, A>>::leak$|^<alloc::boxed::Box<T, alloc::alloc::Global>>::leak$", NEUTRAL, "box -> &'static mut: the allocation persists, contents travel with the reference (like into_raw)"),
+    (r"^<alloc::boxed::Box<T, A>>::(into_pin|into_inner|into_boxed_slice)$|^<alloc::boxed::Box<T, alloc::alloc::Global>>::pin$", UNSUPPORTED, "box conversion not used by the crate"),
     (r"^<alloc::boxed::Box<T, A> as core::ops::drop::Drop>::drop$", BOXDROP, "frees the box allocation with the layout of its (possibly fat) pointee"),
     # --- atomics ---------------------------------------------------------------------------
     (r"^<core::sync::atomic::Atomic<\w+>>::new$", ATOMIC_NEW, "initial value of an atomic"),
@@ -94,6 +95,7 @@ TABLE = [
     (r"^<\*(const|mut) T>::\w+$", NEUTRAL, "raw-pointer arithmetic/cast"),
     (r"^<\*(const|mut) \[T\]>::\w+$", NEUTRAL, "raw-slice pointer op"),
     (r"^<core::ptr::non_null::NonNull<T>>::\w+$", NEUTRAL, "NonNull wrapper op"),
+    (r"^<core::ptr::non_null::NonNull<T> as core::convert::From<&(mut )?T>>::from$", NEUTRAL, "NonNull from a reference"),
     (r"^<core::ptr::non_null::NonNull<\[T\]>>::\w+$", NEUTRAL, "NonNull slice op"),
     (r"^core::ptr::(addr_eq|eq|null|null_mut|slice_from_raw_parts|slice_from_raw_parts_mut|from_ref|from_mut|without_provenance|without_provenance_mut|dangling|dangling_mut|metadata|from_raw_parts|from_raw_parts_mut)$", NEUTRAL, "pointer construction/comparison"),
     (r"^<\[T\]>::(len|as_ptr|as_mut_ptr|is_empty|as_ptr_range|as_mut_ptr_range)$", NEUTRAL, "slice metadata"),
